@@ -88,6 +88,16 @@ def gen_cases(tier, seed):
             lines = colourise(lines, r)
         for opts, keep in [(r.choice(KEEP), True), (r.choice(KEEP), True), (r.choice(OVERRIDE), False)]:
             cases.append({"lines": lines, "opts": opts, "keep": keep, "coloured": coloured, "kinds": [s["kind"] for s in d["sections"]]})
+    # other well-formed inputs of the property's domain: plain `diff -u` streams and combined diffs (oracle only:
+    # the line state machine model covers git's two-way diffs)
+    for i in range(n // 6):
+        r = vlib.case_rng(seed, PID, ("other", i))
+        tok = gdiff.Tok()
+        kind = r.choice(["diffu", "cc"])
+        secs = [gdiff.gen_section(r, tok, kind=kind) for _ in range(r.randint(1, 3))]
+        lines = gdiff.diff_lines({"pre": gdiff.gen_log_wrapper(r) if (kind == "cc" and r.random() < 0.5) else [], "sections": secs})
+        for opts, keep in [(r.choice(KEEP), True), (r.choice(OVERRIDE), False)]:
+            cases.append({"lines": lines, "opts": opts, "keep": keep, "coloured": False, "kinds": [kind], "no_model": True})
     # every option set at least once on a fixed two-file log
     r = vlib.case_rng(seed, PID, "fixed")
     d = gdiff.gen_diff(r, nsec=3, log=True)
@@ -152,7 +162,7 @@ def main(tier, replay=None):
             chk.violation({"property": PID, "why": "; ".join(why), "case": c, "opts": " ".join(c["opts"]),
                            "input": "\n".join(lines), "output": outl[:60]})
         # correspondence with the model (plain input, plain --color-only)
-        if not c["coloured"] and c["keep"] and rc == 0:
+        if not c["coloured"] and c["keep"] and rc == 0 and not c.get("no_model"):
             ncorr += 1
             sd = vm.ask("delta_safes", 32, ",".join(vlib.hexs(l) for l in lines))
             chk.count("theorem_side_condition:" + sd)
